@@ -183,6 +183,12 @@ impl C15World {
                     break;
                 }
             }
+            // As a read target (BufMut): the spare part of the slot.
+            let sc = a10::io::BufMut::spare_capacity(b) as usize;
+            let hs = a10::io::BufMut::has_spare_capacity(b);
+            if sc != cap - got.len().min(cap) || hs != (sc > 0) {
+                wrong = Some(format!("after {what}: BufMut::spare_capacity()={sc} has_spare_capacity()={hs}, capacity {cap} - len {}", got.len()));
+            }
             // As a write source (Buf): exactly the held bytes.
             let (pp, pl) = unsafe { a10::io::Buf::parts(b) };
             if pl as usize != got.len() || (pl > 0 && pp as usize != ptr) || a10::io::Buf::len(b) != got.len() || a10::io::Buf::is_empty(b) != got.is_empty() {
